@@ -70,6 +70,8 @@ type c18Scenario struct {
 	Tret      int       `json:"tret"`
 	W         int       `json:"w"`
 	Items     []c18Item `json:"items"`
+	Removed   []string  `json:"removed,omitempty"`    // listeners closed at run time (proxy.CloseProxy) before the shutdown
+	Signals   int       `json:"signals,omitempty"`    // further shutdown requests while the shutdown is under way
 	Late      []string  `json:"late,omitempty"`       // servers that are handed their listener only after shutdown has begun
 	WaitTicks int       `json:"wait_ticks,omitempty"` // what is handed to Shutdown (default: w)
 	Selftest  string    `json:"selftest,omitempty"`
@@ -86,6 +88,8 @@ func c18Dur(class string, tick time.Duration) time.Duration {
 		return 0
 	case "mute":
 		return -2 // never; the client half-closes and the upstream stays silent
+	case "reset":
+		return -5 // never; the client's connection is reset and the upstream keeps its side open
 	case "edge":
 		return -3 // until shortly before the end of the wait (an absolute moment, told when Shutdown is called)
 	}
@@ -206,6 +210,19 @@ func (u *c18Up) serveLine(c net.Conn) {
 		return
 	}
 	defer u.end(id)
+	if ns == -5 {
+		// the upstream has the request and simply keeps its side of the tunnel open
+		ch := u.mutedCh(id)
+		u.mu.Lock()
+		select {
+		case <-ch:
+		default:
+			close(ch)
+		}
+		u.mu.Unlock()
+		<-u.stopCh()
+		return
+	}
 	if ns == -2 {
 		// a silent upstream: it reads the client's EOF, answers nothing and keeps its side open
 		io.Copy(io.Discard, br)
@@ -316,12 +333,29 @@ func c18Cert() (*tls.Config, error) {
 
 // ---------------------------------------------------------------- the world of one test run
 
+// c18FirstMessage is what a client of the flavour sends first: the TLS ClientHello, the HTTP/2 connection
+// preface, the head of an HTTP request (without the blank line that ends it), a line of the tunnel protocol
+// (without its end).
+func c18FirstMessage(flavour, id string) []byte {
+	switch flavour {
+	case "https", "tls":
+		return c18ClientHello("localhost")
+	case "sni":
+		return c18ClientHello(c18SNIHost)
+	case "grpc":
+		return []byte("PRI * HTTP/2.0\r\n\r\nSM\r\n\r\n")
+	case "http":
+		return []byte("GET /work?id=" + id + "&ns=0 HTTP/1.1\r\nHost: c18\r\nUser-Agent: c18-stall\r\n")
+	}
+	return []byte(id + " 0 and no end of line")
+}
+
 // c18ClientHello returns the bytes of a real TLS ClientHello record.
-func c18ClientHello() []byte {
+func c18ClientHello(serverName string) []byte {
 	c1, c2 := net.Pipe()
 	defer c1.Close()
 	defer c2.Close()
-	go tls.Client(c1, &tls.Config{InsecureSkipVerify: true, ServerName: "localhost"}).Handshake()
+	go tls.Client(c1, &tls.Config{InsecureSkipVerify: true, ServerName: serverName}).Handshake()
 	buf := make([]byte, 16384)
 	c2.SetReadDeadline(time.Now().Add(2 * time.Second))
 	n, _ := c2.Read(buf)
@@ -387,6 +421,43 @@ func c18TwinAddr(addr string) (string, bool) {
 	}
 	ln.Close()
 	return "127.0.0.2:" + port, true
+}
+
+// c18Registry runs fn with the package's registry lock held.  The lock is fabio's own: should the code under
+// test have left it locked, the harness must not hang on it -- it gives up (false) and remembers.
+var c18RegistryDead int32
+
+func c18Registry(fn func()) bool {
+	if atomic.LoadInt32(&c18RegistryDead) != 0 {
+		return false
+	}
+	deadline := time.Now().Add(3 * time.Second)
+	for !mu.TryLock() {
+		if time.Now().After(deadline) {
+			atomic.StoreInt32(&c18RegistryDead, 1)
+			return false
+		}
+		time.Sleep(time.Millisecond)
+	}
+	fn()
+	mu.Unlock()
+	return true
+}
+
+// c18CloseAll is proxy.Close() as the process exit would do it, without hanging on a stuck server or lock.
+func c18CloseAll() {
+	done := make(chan struct{})
+	go func() {
+		if atomic.LoadInt32(&c18RegistryDead) == 0 {
+			Close()
+		}
+		close(done)
+	}()
+	select {
+	case <-done:
+	case <-time.After(3 * time.Second):
+		atomic.StoreInt32(&c18RegistryDead, 1)
+	}
 }
 
 // c18HoldsListener reports whether this process has a socket in state LISTEN on addr (Linux: /proc).
@@ -519,9 +590,10 @@ func (w *c18World) stage(name string) (*c18Server, func(), error) {
 		return nil, nil, fmt.Errorf("kind %s cannot be started in two steps", name)
 	}
 	s := &c18Server{kind: name, addr: addr, srv: srv, served: make(chan error, 1)}
-	mu.Lock()
-	servers[ln.Addr().String()] = srv
-	mu.Unlock()
+	if !c18Registry(func() { servers[ln.Addr().String()] = srv }) {
+		ln.Close()
+		return nil, nil, fmt.Errorf("the registry of servers is locked")
+	}
 	return s, func() { go func() { s.served <- srv.Serve(ln) }() }, nil
 }
 
@@ -549,6 +621,9 @@ func (w *c18World) start(name, fixedAddr string) (*c18Server, error) {
 				s.served <- ListenAndServeHTTP(l, w.up, w.tlsCfg)
 			case "tcp":
 				s.served <- ListenAndServeTCP(l, &tcp.Proxy{DialTimeout: 5 * time.Second, Lookup: c18Target(w.plainUp.Addr().String())}, nil)
+			case "tcp-dyn":
+				// what main's refresh loop starts for a port of a proto=tcp-dynamic listener with a cert source
+				s.served <- ListenAndServeTCP(l, &tcp.DynamicProxy{DialTimeout: 5 * time.Second, Lookup: c18Target(w.plainUp.Addr().String())}, w.tlsCfg)
 			case "tcp+tls":
 				s.served <- ListenAndServeTCP(l, &tcp.Proxy{DialTimeout: 5 * time.Second, Lookup: c18Target(w.plainUp.Addr().String())}, w.tlsCfg)
 			case "tcp+sni":
@@ -568,9 +643,9 @@ func (w *c18World) start(name, fixedAddr string) (*c18Server, error) {
 		deadline := time.Now().Add(5 * time.Second)
 		failed := false
 		for n := 0; time.Now().Before(deadline) && !failed; n++ {
-			mu.Lock()
-			s.srv = servers[addr]
-			mu.Unlock()
+			if !c18Registry(func() { s.srv = servers[addr] }) {
+				return nil, fmt.Errorf("the registry of servers is locked")
+			}
 			if s.srv != nil {
 				return s, nil
 			}
@@ -646,9 +721,10 @@ func (w *c18World) launch(s *c18Server, it c18Item, id, flavour string, timeout 
 		defer close(r.finished)
 		defer func() { r.endAt = time.Now() }()
 		defer cancel()
-		if it.Dur == "stall" {
-			// a connection that never gets as far as a request: the client connects and sends nothing,
-			// or stops in the middle of its TLS ClientHello
+		if strings.HasPrefix(it.Dur, "stall") {
+			// a connection that never gets as far as a request: the client connects and sends nothing
+			// (stall0), part of its first protocol message (stall1), or that message and nothing after it
+			// (stall2)
 			var d net.Dialer
 			c, err := d.DialContext(ctx, "tcp", s.addr)
 			if err != nil {
@@ -657,10 +733,10 @@ func (w *c18World) launch(s *c18Server, it c18Item, id, flavour string, timeout 
 			}
 			defer c.Close()
 			go func() { <-ctx.Done(); c.Close() }()
-			if strings.HasSuffix(flavour, "+hello") {
-				if hello := c18ClientHello(); len(hello) > 20 {
-					c.Write(hello[:len(hello)/2])
-				}
+			if first := c18FirstMessage(flavour, id); it.Dur == "stall1" {
+				c.Write(first[:len(first)/2])
+			} else if it.Dur == "stall2" {
+				c.Write(first)
 			}
 			time.Sleep(30 * time.Millisecond) // pacing: let the listener pick the connection up
 			close(r.established)
@@ -708,6 +784,22 @@ func (w *c18World) launch(s *c18Server, it c18Item, id, flavour string, timeout 
 			}
 			if _, err := fmt.Fprintf(rw, "%s %d\n", id, ns); err != nil {
 				r.fail(err)
+				return
+			}
+			if it.Dur == "reset" {
+				// the upstream has the request and keeps the tunnel open; the client's connection breaks
+				select {
+				case <-w.up.mutedCh(id):
+				case <-ctx.Done():
+					r.fail(ctx.Err())
+					return
+				}
+				c.(*net.TCPConn).SetLinger(0)
+				c.Close() // RST
+				time.Sleep(50 * time.Millisecond) // pacing: let the proxy see the reset
+				close(r.established)
+				<-ctx.Done()
+				r.fail(fmt.Errorf("connection reset by the client"))
 				return
 			}
 			if it.Dur == "mute" {
@@ -774,7 +866,7 @@ func c18Flavour(name string, nth int, seed int64) string {
 		return kind
 	case "tcp+sni":
 		return "sni"
-	case "tcp+tls":
+	case "tcp+tls", "tcp-dyn":
 		return "tls"
 	case "https+tcp+sni":
 		if (int64(nth)+seed)%2 == 0 {
@@ -795,6 +887,7 @@ type c18Finding struct {
 
 type c18Result struct {
 	findings  []c18Finding
+	notes     []string
 	setup     string // non-empty: the scenario could not be staged (no verdict)
 	shutdown  time.Duration
 	returned  bool
@@ -813,11 +906,13 @@ func (w *c18World) play(sc *c18Scenario, seed int64) (res c18Result) {
 		res.findings = append(res.findings, c18Finding{clause, feat, fmt.Sprintf(format, a...)})
 	}
 	w.up.newScenario()
-	mu.Lock()
-	leftover := len(servers)
-	mu.Unlock()
+	leftover := 0
+	if !c18Registry(func() { leftover = len(servers) }) {
+		res.setup = "the registry of servers is locked"
+		return
+	}
 	if leftover != 0 {
-		Close()
+		c18CloseAll()
 	}
 	srvs := map[string]*c18Server{}
 	var kinds []string
@@ -831,7 +926,7 @@ func (w *c18World) play(sc *c18Scenario, seed int64) (res c18Result) {
 		for _, s := range srvs {
 			s.close()
 		}
-		Close()
+		c18CloseAll()
 		for _, s := range srvs {
 			select {
 			case <-s.served:
@@ -933,10 +1028,7 @@ func (w *c18World) play(sc *c18Scenario, seed int64) (res c18Result) {
 			}
 			nth[it.Srv]++
 			fl := c18Flavour(it.Srv, nth[it.Srv], seed)
-			if it.Dur == "stall" && (fl == "https" || fl == "tls" || fl == "sni") && (int64(nth[it.Srv]+i)+seed)%2 == 0 {
-				fl += "+hello"
-			}
-			if it.Dur == "mute" {
+			if it.Dur == "mute" || it.Dur == "reset" {
 				if fl == "https" {
 					fl = "sni"
 				}
@@ -967,6 +1059,22 @@ func (w *c18World) play(sc *c18Scenario, seed int64) (res c18Result) {
 		}
 	}
 
+	// ---- listeners that are closed at run time, as main's tcp-dynamic loop does when the route of a port goes
+	removedKind := map[string]bool{}
+	for _, k := range sc.Removed {
+		removedKind[k] = true
+		if srvs[k] == nil {
+			continue
+		}
+		cdone := make(chan error, 1)
+		go func(addr string) { cdone <- CloseProxy(addr) }(srvs[k].addr)
+		select {
+		case <-cdone:
+		case <-time.After(3 * time.Second):
+			res.notes = append(res.notes, fmt.Sprintf("CloseProxy(%s) did not return within 3s", k))
+		}
+	}
+
 	// ---- shutdown
 	done := make(chan struct{})
 	tStart := time.Now()
@@ -975,6 +1083,16 @@ func (w *c18World) play(sc *c18Scenario, seed int64) (res c18Result) {
 		Shutdown(wait)
 		close(done)
 	}()
+	for n := 0; n < sc.Signals; n++ {
+		// a further request to shut down while the first is under way changes nothing
+		go func(n int) {
+			select {
+			case <-time.After(time.Duration(n+1) * wait / 4):
+				Shutdown(wait)
+			case <-done: // too late: the shutdown is over (and the registry belongs to the next scenario)
+			}
+		}(n)
+	}
 	if len(lateSteps) > 0 {
 		// start-up goes on: the servers that were only registered are handed their listeners now
 		time.Sleep(50 * time.Millisecond)
@@ -1128,6 +1246,9 @@ func (w *c18World) play(sc *c18Scenario, seed int64) (res c18Result) {
 	// ---- work in flight that ended within the wait must have completed normally
 	half := tStart.Add(time.Duration(sc.W) * tick / 2)
 	for _, r := range runs {
+		if removedKind[r.item.Srv] {
+			continue // the listener was closed at run time, with everything on it
+		}
 		if r.item.Dur == "edge" {
 			// work that ends c18EdgeBefore before the wait is over finishes within the wait: it must
 			// complete.  A verdict needs the client to have seen the exchange end early enough that the
@@ -1209,7 +1330,7 @@ func TestVerifC18(t *testing.T) {
 		t.Fatal(err)
 	}
 	var played, items, asserted, skipped, probes, setups, leaks, nontrivial int64
-	var selfTotal, selfRejected, twinSkipped, twinPlayed int64
+	var selfTotal, selfRejected, twinSkipped, twinPlayed, notPlayed int64
 	twinOK := c18TwinOK()
 	var maxShutdown time.Duration
 	var samples []string
@@ -1218,6 +1339,10 @@ func TestVerifC18(t *testing.T) {
 		sc := &scs[i]
 		if sc.Idx == 0 {
 			sc.Idx = i + 1
+		}
+		if atomic.LoadInt32(&c18RegistryDead) != 0 && sc.Selftest == "" {
+			notPlayed++ // fabio left its registry locked (reported where it happened): nothing can be staged any more
+			continue
 		}
 		hasTwin := false
 		for _, k := range sc.Kinds {
@@ -1240,6 +1365,7 @@ func TestVerifC18(t *testing.T) {
 			if len(res.findings) > 0 {
 				selfRejected++
 			}
+			verifx.Emit(map[string]any{"kind": "selftest", "what": sc.Selftest, "findings": len(res.findings), "setup": res.setup})
 			continue
 		}
 		played++
@@ -1273,12 +1399,12 @@ func TestVerifC18(t *testing.T) {
 			"shutdown_ms": res.shutdown.Milliseconds(), "returned": res.returned, "asserted": res.asserted,
 			"skipped": res.skipped, "wall_ms": res.wallTotal.Milliseconds()})
 	}
-	mu.Lock()
-	left := len(servers)
-	mu.Unlock()
+	left := 0
+	c18Registry(func() { left = len(servers) })
 	verifx.Summary(map[string]any{"scenarios": played, "items": items, "asserted": asserted, "skipped": skipped,
 		"probes": probes, "setup_failures": setups, "leaks": leaks, "distinct_nontrivial": nontrivial,
 		"max_shutdown_ms": maxShutdown.Milliseconds(), "selftests": selfTotal, "selftests_rejected": selfRejected,
-		"registry_left": left, "samples": samples, "twin_scenarios": twinPlayed, "twin_skipped": twinSkipped})
+		"registry_left": left, "samples": samples, "twin_scenarios": twinPlayed, "twin_skipped": twinSkipped, "registry_dead": atomic.LoadInt32(&c18RegistryDead) != 0,
+		"not_played": notPlayed})
 	_ = atomic.LoadInt64
 }
